@@ -10,6 +10,7 @@ mod c15;
 mod pool;
 mod poolgen;
 mod votor;
+mod c09;
 
 use std::fs;
 use std::io::Write;
@@ -157,6 +158,7 @@ fn real_main() {
                 "C04" => poolgen::gen_c04(seed, tier),
                 "C05" => votor::gen_c05(seed, tier),
                 "C06" => poolgen::gen_c06(seed, tier),
+                "C09" => c09::gen_c09(seed, tier),
                 "C07" => poolgen::gen_c07(seed, tier),
                 "C08" => poolgen::gen_c08(seed, tier),
                 "C18" => poolgen::gen_c18(seed, tier),
